@@ -596,6 +596,9 @@ func (s *storage) getExchangeTargetsUnchecked(oldTable *table, relations []relat
 //
 // Checks validity of relations.
 func (s *storage) getExchangeTargets(oldTable *table, relations []relationID, mask *bitMask) ([]relationID, bool) {
+	// A component named twice can end with the targets it started with:
+	// the entity would then be "moved" into its own table.
+	checkRelationsDistinct(relations)
 	changed := false
 	targets := s.slices.entities
 	for i := range oldTable.columns {
@@ -603,11 +606,15 @@ func (s *storage) getExchangeTargets(oldTable *table, relations []relationID, ma
 	}
 	for _, rel := range relations {
 		// Validity of the target is checked when creating a new table.
-		// Whether the component is a relation is checked when creating a new table.
 		column := oldTable.components[rel.component.id]
 		if column == nil {
 			tp, _ := s.registry.ComponentType(rel.component.id)
 			panic(fmt.Sprintf("entity has no component of type %s to set relation target for", tp.Name()))
+		}
+		// A target on a non-relation column does not change the relation list:
+		// no table would be created, so the check done there would never run.
+		if !column.isRelation {
+			panic(fmt.Sprintf("component %d is not a relation component", rel.component.id))
 		}
 		if rel.target == targets[column.index] {
 			continue
